@@ -844,6 +844,17 @@ def rule_jn_build(cx, rep, port):
             rep.undecided('max width start', m0[0], 'initial max_record_len is not a constant')
     nf = [n for n in walk_no_nested(b) if isinstance(n, ast.Assign) and is_name(n.targets[0], nfn)]
     rep.decide(len(nf) == 1 and node_text(nf[0].value) == 'len({})'.format(rec), 'bNF', nf[0] if nf else b, 'bNF = len(record)', 'bNF is not the field count of the B record')
+    if port == 'js' and ('init' in ms or '__init__' in ms):
+        # the map from key to matches compares keys like the A-side lookup does (SameValueZero of a Map): a plain object coerces
+        # every key to a string (7 and "7", null and "null" meet) and cannot hold the key `__proto__`
+        ini_ = ms.get('__init__') or ms.get('init')
+        hm0 = [n for n in walk_no_nested(ini_) if isinstance(n, ast.Assign) and dotted(n.targets[0]) == 'self.hash_map']
+        if len(hm0) == 1 and isinstance(hm0[0].value, ast.Call) and dotted(hm0[0].value.func) == 'Map':
+            rep.holds('key container', hm0[0], 'B records are kept in a Map (keys compared without coercion)')
+        elif len(hm0) == 1 and (isinstance(hm0[0].value, ast.Dict) or (isinstance(hm0[0].value, ast.Call) and dotted(hm0[0].value.func) in ('Object.create', 'Object'))):
+            rep.violated('key container', hm0[0], 'the join map is a plain object (`{}`): keys are coerced to strings, so a number and its decimal string (or null and "null") are paired although the key fields differ, and a B key `__proto__` is never stored'.format(node_text(hm0[0].value, 30)))
+        else:
+            rep.undecided('key container', hm0[0] if hm0 else ini_, 'construction of the join map not recognised')
     # key functions: index -1 -> record number ; missing field -> runtime error.  Decided on the abstract outcomes of the two key
     # functions for a B record of two fields F0, F1 and the index classes {-1, inside, outside}
     _jn_key_functions(cx, rep, port, p, mod, ms)
